@@ -17,6 +17,7 @@ package topologyaware
 import (
 	"errors"
 	"fmt"
+	"reflect"
 
 	"github.com/containers/nri-plugins/pkg/utils/cpuset"
 	"k8s.io/apimachinery/pkg/api/resource"
@@ -66,6 +67,7 @@ type policy struct {
 	cpuAllocator cpuallocator.CPUAllocator // CPU allocator used by the policy
 	memAllocator *libmem.Allocator
 	metrics      *TopologyAwareMetrics
+	cfgDirty     bool // an attempt to apply a configuration failed since the last successful one
 }
 
 var opt = &cfgapi.Config{}
@@ -470,7 +472,16 @@ func (p *policy) Reconfigure(newCfg interface{}) error {
 
 	log.Infof("updated configuration: %+v", cfg)
 
+	if !p.cfgDirty && reflect.DeepEqual(cfg, p.cfg) {
+		// Rebuilding the pools and reinstating every grant is not a no-op: a
+		// grant that cannot be reinstated verbatim is re-placed. After a failed
+		// attempt, however, the configuration in force must be applied in full.
+		log.Info("no configuration changes")
+		return nil
+	}
+
 	savedPolicy := *p
+	savedPolicy.cfgDirty = true
 	allocations := savedPolicy.allocations.clone()
 
 	opt = cfg
@@ -483,6 +494,7 @@ func (p *policy) Reconfigure(newCfg interface{}) error {
 	}
 
 	if err := p.registerImplicitAffinities(); err != nil {
+		p.cfgDirty = true
 		return policyError("failed to reconfigure: %v", err)
 	}
 
@@ -504,6 +516,7 @@ func (p *policy) Reconfigure(newCfg interface{}) error {
 
 	p.root.Dump("<post-config>")
 	p.checkAllocations("  <post-config>")
+	p.cfgDirty = false
 
 	return nil
 }
